@@ -41,8 +41,8 @@ var importSwap = map[string]string{
 
 var defaultName = map[string]string{"sync": "sync", "sync/atomic": "atomic", "math/rand": "rand", "math/rand/v2": "rand", "hash/maphash": "maphash", "crypto/rand": "rand"}
 
-var timeRedirect = map[string]bool{"Now": true, "Since": true, "Until": true, "Sleep": true}
-var timeRefuse = map[string]bool{"After": true, "AfterFunc": true, "NewTimer": true, "NewTicker": true, "Tick": true}
+var timeRedirect = map[string]bool{"Now": true, "Since": true, "Until": true, "Sleep": true, "After": true, "AfterFunc": true, "NewTimer": true, "NewTicker": true, "Tick": true, "Timer": true, "Ticker": true}
+var timeRefuse = map[string]bool{}
 
 // imports that cannot run under the simulator (real blocking / unmanaged goroutines / I/O)
 var refuseImport = map[string]bool{"C": true, "net": true, "net/http": true, "os/exec": true, "os/signal": true, "syscall": true, "context": true}
